@@ -114,6 +114,12 @@ def run_shard(sh, rec):
             nts = [2]
             if mode == "audit" and (tier == "thorough" or (hash(vname) + seed) % 4 == 0):
                 nts = [2, False, 3]
+            elif mode == "audit" and (hash(vname) + seed) % 4 == 1:
+                # a thread team LARGER than the grid has rows (16 threads, grids of 3..12 rows): wrappers that re-arrange the sweep for
+                # "more threads than rows" only do so here
+                nts = [2, 16]
+            if tier == "thorough" and mode == "audit":
+                nts = nts + [16]
             if again:
                 # second pass in reverse order: generators are called again in this process (serial build: wrappers' internal
                 # boundary kernels are serial), one minimal + one random shape, contiguous layout
